@@ -143,13 +143,13 @@ func (c *Ctx) Func(pkg, name string) *ssa.Function {
 
 // PO: path options for a query.
 type PO struct {
-	Depth     int
-	Visits    int
-	NoInline  []string // callee-name substrings that stay opaque
+	Depth      int
+	Visits     int
+	NoInline   []string // callee-name substrings that stay opaque
 	OnlyInline []string // if set: only these are inlined
-	Pure      []string // non-inlined module callees treated as pure
-	Callbacks bool
-	Params    []string
+	Pure       []string // non-inlined module callees treated as pure
+	Callbacks  bool
+	Params     []string
 }
 
 func (po PO) key() string {
